@@ -48,19 +48,6 @@ Proof.
     destruct t; cbn in *; now rewrite <- IH.
 Qed.
 
-Lemma newline_free_eq s : newline_free s = no_newline s.
-Proof. reflexivity. Qed.
-
-Lemma no_newline_app a b : no_newline (a ++ b) = no_newline a && no_newline b.
-Proof. unfold no_newline. apply forallb_app. Qed.
-
-Lemma no_newline_join_skip l : forall k, no_newline (join [slash] l) = true -> no_newline (join [slash] (skipn k l)) = true.
-Proof.
-  induction l as [|x l IH]; intros k H; [destruct k; exact H|]. destruct k; [exact H|]. cbn [skipn].
-  apply IH. destruct l as [|y l']; [reflexivity|]. cbn [join] in H. rewrite !no_newline_app in H.
-  apply andb_true_iff in H as [_ H]. apply andb_true_iff in H as [_ H]. exact H.
-Qed.
-
 Lemma tok_admits e v seg :
   tok_rel e v -> e <> EAll ->
   (match e with ELit s => str_eqb seg s | EVar => negb (str_eqb seg []) | ERx re => o_rxfull O re seg | EAll => false end) = true ->
@@ -76,7 +63,7 @@ Lemma match_route_sound etoks : forall vtoks p1 caps fin,
   jsr_admits_segs O vtoks (split slash p1) = true.
 Proof.
   induction etoks as [|e etoks IH]; intros vtoks p1 caps fin Hrel Hm Hf; inversion Hrel as [|? v ? vt Hv Hrest]; subst; cbn [jsr_match] in Hm.
-  - rewrite Ascii.eqb_refl in Hm. cbn [andb] in Hm. destruct (no_newline (slash :: p1)); [|discriminate Hm]. injection Hm as <- <-.
+  - rewrite Ascii.eqb_refl in Hm. injection Hm as <- <-.
     unfold final_ok in Hf. cbn in Hf. destruct p1; [reflexivity|discriminate Hf].
   - rewrite Ascii.eqb_refl in Hm. cbn [negb] in Hm.
     destruct (split slash p1) as [|s0 segs0] eqn:Esp; [now contradiction (split_not_nil slash p1)|].
@@ -101,10 +88,9 @@ Proof.
       * eapply IH; eauto.
     + (* the tail wildcard takes everything *)
       destruct etoks; [|discriminate]. inversion Hrest; subst.
-      destruct (no_newline p1) eqn:En; [|discriminate].
       cbn [jsr_admits_segs]. assert (Ht : is_tail v = true).
       { unfold tok_rel in Hv. unfold is_tail. destruct (v_tk v); cbn in Hv; try discriminate; reflexivity. }
-      rewrite Ht. rewrite <- Esp, join_split. exact En.
+      rewrite Ht. reflexivity.
 Qed.
 
 (* ---- root expression, then route expression on the root's final group: two phases ---- *)
@@ -112,28 +98,25 @@ Lemma match_two_phase ra : forall rt p1 c1 f1 rb tt c2 f2,
   Forall2 tok_rel ra rt -> Forall2 tok_rel rb tt ->
   jsr_match O ra (slash :: p1) = Some (c1, f1) ->
   jsr_match O rb f1 = Some (c2, f2) -> final_ok f2 = true ->
-  jsr_admits_segs O (rt ++ tt) (split slash p1) = true /\
-  no_newline (join [slash] (skipn (List.length rt) (split slash p1))) = true.
+  jsr_admits_segs O (rt ++ tt) (split slash p1) = true.
 Proof.
   induction ra as [|e ra IH]; intros rt p1 c1 f1 rb tt c2 f2 Hra Hrb Hm1 Hm2 Hf; inversion Hra as [|? v ? vt Hv Hrest]; subst; cbn [jsr_match] in Hm1.
-  - rewrite Ascii.eqb_refl in Hm1. cbn [andb] in Hm1. destruct (no_newline (slash :: p1)) eqn:En; [|discriminate Hm1]. injection Hm1 as <- <-.
-    cbn [app List.length skipn]. split; [eapply match_route_sound; eauto|].
-    rewrite join_split. cbn in En. exact En.
+  - rewrite Ascii.eqb_refl in Hm1. injection Hm1 as <- <-.
+    cbn [app]. eapply match_route_sound; eauto.
   - rewrite Ascii.eqb_refl in Hm1. cbn [negb] in Hm1.
     destruct (split slash p1) as [|s0 segs0] eqn:Esp; [now contradiction (split_not_nil slash p1)|].
     assert (Hstep : forall seg rest,
               span_seg p1 = (seg, rest) -> e <> EAll ->
               tk_admits_jsr O (v_tk v) seg = true -> is_tail v = false ->
               forall c1', jsr_match O ra rest = Some (c1', f1) ->
-              jsr_admits_segs O ((v :: vt) ++ tt) (s0 :: segs0) = true /\
-              no_newline (join [slash] (skipn (List.length (v :: vt)) (s0 :: segs0))) = true).
+              jsr_admits_segs O ((v :: vt) ++ tt) (s0 :: segs0) = true).
     { intros seg rest Es Hne Ha Ht c1' Em.
       destruct (span_seg_split p1 seg rest Es) as [[-> Hs]|(r1 & -> & Hs)]; rewrite Hs in Esp; injection Esp as <- <-;
-        cbn [app jsr_admits_segs List.length skipn]; rewrite Ht, Ha; cbn [andb].
+        cbn [app jsr_admits_segs]; rewrite Ht, Ha; cbn [andb].
       - (* the path ends with this segment: the root expression ends here too, and the route template is empty *)
         destruct ra; [|discriminate]. inversion Hrest; subst. cbn in Em. injection Em as <- <-.
-        destruct rb; [|discriminate]. inversion Hrb; subst. cbn. split; reflexivity.
-      - destruct (IH vt r1 c1' f1 rb tt c2 f2 Hrest Hrb Em Hm2 Hf) as [A B]. split; [exact A|exact B]. }
+        destruct rb; [|discriminate]. inversion Hrb; subst. reflexivity.
+      - exact (IH vt r1 c1' f1 rb tt c2 f2 Hrest Hrb Em Hm2 Hf). }
     destruct e.
     + destruct (span_seg p1) as [seg rest] eqn:Es. destruct (str_eqb seg s) eqn:Eok; cbn [negb] in Hm1; [|discriminate].
       destruct (jsr_match O ra rest) as [[c1' f1']|] eqn:Em; [|discriminate]. injection Hm1 as <- <-.
@@ -146,12 +129,11 @@ Proof.
       destruct (tok_admits (ERx re) v seg Hv ltac:(discriminate) Eok) as [Ha Ht]. eapply Hstep; eauto. discriminate.
     + (* a root ending in a tail wildcard: nothing is left for the route template, which must be empty *)
       destruct ra; [|discriminate]. inversion Hrest; subst.
-      destruct (no_newline p1) eqn:En; [|discriminate]. injection Hm1 as <- <-.
+      injection Hm1 as <- <-.
       destruct rb; [|discriminate]. inversion Hrb; subst.
       assert (Ht : is_tail v = true).
       { unfold tok_rel in Hv. unfold is_tail. destruct (v_tk v); cbn in Hv; try discriminate; reflexivity. }
-      cbn [app jsr_admits_segs List.length]. rewrite Ht. rewrite <- Esp, join_split. split; [exact En|].
-      apply no_newline_join_skip. now rewrite join_split.
+      cbn [app jsr_admits_segs]. rewrite Ht. reflexivity.
 Qed.
 
 (* ---- assembling: what RouterJSR311.SelectRoute returns ---- *)
@@ -208,7 +190,7 @@ Proof.
     destruct (pe_toks (path_expression (r_rel (rc_route c)))) as [|e l] eqn:E2; [|discriminate].
     inversion Rw; inversion Rr; reflexivity.
   - pose proof (jsr_match_nonempty_path _ _ _ _ _ Hm1). subst ch. unfold path_segs. rewrite Ascii.eqb_refl.
-    destruct (match_two_phase _ _ _ _ _ _ _ _ _ Rw Rr Hm1 Hm2 Hf2) as [A B]. rewrite A. exact B.
+    exact (match_two_phase _ _ _ _ _ _ _ _ _ Rw Rr Hm1 Hm2 Hf2).
 Qed.
 
 (* C02 for RouterJSR311: parameter extraction cannot panic on a selected route *)
@@ -274,7 +256,7 @@ Lemma route_bindings_sound ets : forall vtoks p1 caps fin,
   zip_params (names_of ets) caps = jsr_bindings vtoks (split slash p1).
 Proof.
   induction ets as [|en ets IH]; intros vtoks p1 caps fin Hrel Hm; inversion Hrel as [|? v ? vt Hv Hrest]; subst; cbn [map jsr_match] in Hm.
-  - rewrite Ascii.eqb_refl in Hm. cbn [andb] in Hm. destruct (no_newline (slash :: p1)); [|discriminate Hm]. injection Hm as <- <-. reflexivity.
+  - rewrite Ascii.eqb_refl in Hm. injection Hm as <- <-. reflexivity.
   - rewrite Ascii.eqb_refl in Hm. cbn [negb] in Hm.
     destruct (split slash p1) as [|s0 segs0] eqn:Esp; [now contradiction (split_not_nil slash p1)|].
     assert (Hgen : forall seg rest caps', span_seg p1 = (seg, rest) -> fst en <> EAll ->
@@ -299,7 +281,7 @@ Proof.
       destruct (jsr_match O (map fst ets) rest) as [[caps' fin']|] eqn:Em; [|discriminate Hm]. injection Hm as <- <-.
       eapply Hgen; eauto. discriminate.
     + destruct ets; [|discriminate Hm]. inversion Hrest; subst. cbn [map] in Hm.
-      destruct (no_newline p1); [|discriminate Hm]. injection Hm as <- <-.
+      injection Hm as <- <-.
       destruct Hv as [Hc Hn]. rewrite ?Ee in Hc. unfold names_of. cbn [flat_map]. rewrite Hn.
       destruct (v_tk v) eqn:Ev; cbn in Hc; try discriminate Hc. cbn [tk_name app zip_params jsr_bindings]. rewrite Ev.
       now rewrite <- Esp, join_split.
@@ -312,7 +294,7 @@ Lemma two_phase_bindings ra : forall rt p1 c1 f1 rb tt c2 f2,
   zip_params (names_of ra) c1 ++ zip_params (names_of rb) c2 = jsr_bindings (rt ++ tt) (split slash p1).
 Proof.
   induction ra as [|en ra IH]; intros rt p1 c1 f1 rb tt c2 f2 Hra Hrb Hm1 Hm2; inversion Hra as [|? v ? vt Hv Hrest]; subst; cbn [map jsr_match] in Hm1.
-  - rewrite Ascii.eqb_refl in Hm1. cbn [andb] in Hm1. destruct (no_newline (slash :: p1)); [|discriminate Hm1]. injection Hm1 as <- <-.
+  - rewrite Ascii.eqb_refl in Hm1. injection Hm1 as <- <-.
     cbn [app names_of flat_map zip_params]. eapply route_bindings_sound; eauto.
   - rewrite Ascii.eqb_refl in Hm1. cbn [negb] in Hm1.
     destruct (split slash p1) as [|s0 segs0] eqn:Esp; [now contradiction (split_not_nil slash p1)|].
@@ -339,7 +321,7 @@ Proof.
       destruct (jsr_match O (map fst ra) rest) as [[caps' fin']|] eqn:Em; [|discriminate Hm1]. injection Hm1 as <- <-.
       eapply Hgen; eauto. discriminate.
     + destruct ra; [|discriminate Hm1]. inversion Hrest; subst. cbn [map] in Hm1.
-      destruct (no_newline p1); [|discriminate Hm1]. injection Hm1 as <- <-.
+      injection Hm1 as <- <-.
       destruct rb; [|discriminate Hm2]. inversion Hrb; subst. cbn in Hm2. injection Hm2 as <- <-.
       destruct Hv as [Hc Hn]. rewrite ?Ee in Hc. unfold names_of. cbn [flat_map]. rewrite Hn.
       destruct (v_tk v) eqn:Ev; cbn in Hc; try discriminate Hc. cbn [tk_name app zip_params jsr_bindings]. rewrite Ev.
